@@ -5,6 +5,7 @@ import (
 	"flag"
 	"fmt"
 	"os"
+	"runtime/debug"
 	"sort"
 	"strconv"
 	"time"
@@ -60,6 +61,7 @@ func main() {
 		}
 		r.Deadline = r.Start.Add(b)
 		r.Bounds["time_budget_s"] = b.Seconds()
+		debug.SetGCPercent(400)
 		cd.fn(r)
 		os.Exit(r.finish())
 	case "replay":
